@@ -38,14 +38,17 @@ func runC01(p *core.Program, r *core.Report) {
 	roles := GetRoles(p)
 	live := liveFuncs(p)
 	nLive := 0
-	for _, s := range roles.DrawSites {
+	for _, s := range roles.ChoiceSites {
 		if live[s.Parent()] {
 			nLive++
 		}
 	}
+	for f := range roles.PickHelpers {
+		r.Note("uniform-pick helper %s (bound = len of the indexed parameter, by construction)", core.FuncName(f))
+	}
 	r.Floor("R1.4", "raw-word functions", len(roles.RawWord), 1)
 	r.Floor("R1.4", "bounded-draw functions", len(roles.BoundedDraw), 1)
-	r.Floor("R1.4", "live draw sites", nLive, 4)
+	r.Floor("R1.4", "live choice sites (draws and uniform picks)", nLive, 4)
 	r.Count("draw sites (all)", len(roles.DrawSites))
 	for _, s := range roles.DrawSites {
 		r.Note("draw site %s in %s (live=%v)", p.InstrPos(s), core.FuncName(s.Parent()), live[s.Parent()])
